@@ -4,7 +4,7 @@ import math
 
 import numpy as np
 
-from ..core import fb, unfb, close, fingerprint
+from ..core import fb, unfb, close, fingerprint, safe_oracle
 
 TIGHT = 4e-15      # model and implementation perform the same operations: a few ulp
 ACC = 2.5e-15      # "near machine precision": relative error against the 50-digit value
@@ -28,6 +28,7 @@ def _exact(z):
     return -mp.expm1(-w) / w
 
 
+@safe_oracle
 def oracle_accuracy(args):
     """implementation vs the 50-digit value of (1-exp(-x))/x"""
     import mpmath as mp
@@ -45,6 +46,7 @@ def oracle_accuracy(args):
         "poisson_prob_scale(%r) relative error %.3g (limit %.3g)" % (z, float(err), ACC)
 
 
+@safe_oracle
 def oracle_monotone(args):
     """for 0 <= x < y the implementation must not increase (beyond rounding slack)"""
     f = _impl()
@@ -55,6 +57,7 @@ def oracle_monotone(args):
         "poisson_prob_scale increases from x=%r to y=%r by %.3g" % (x, y, fy - fx)
 
 
+@safe_oracle
 def oracle_array(args):
     """arrays are the elementwise map of the scalar function"""
     f = _impl()
